@@ -388,7 +388,7 @@ func (fa *FA) entailsAt(goal *Lin, b *ssa.BasicBlock, c *pctx) bool {
 	r := entails(cl, goal)
 	if traceFn != "" && strings.Contains(fa.fn.String(), traceFn) {
 		fmt.Printf("QUERY %s @b%d assume=%d facts=%d => %v\n", fa.A.ineqString(goal), b.Index, len(c.assume), len(cl), r)
-		if !r && os.Getenv("E1_TRACE_FACTS") != "" {
+		if (!r && os.Getenv("E1_TRACE_FACTS") != "") || (os.Getenv("E1_TRACE_GOAL") != "" && strings.Contains(fa.A.ineqString(goal), os.Getenv("E1_TRACE_GOAL"))) {
 			for _, f := range relevant(cl, goal) {
 				fmt.Printf("     . %s\n", fa.A.ineqString(f))
 			}
